@@ -27,6 +27,9 @@ uint8_t thread_create(struct thread* t, void (*p)(void*), void* a) { ++created; 
 void thread_join(struct thread* t) {}
 void event_init(struct event* e) { e->state_ = 0; }
 void event_destroy(struct event* e) {}
+/* referenced by the thread bodies that are compiled in but never run here (needed by the native replay link) */
+uint64_t clock_tic(struct clock* c) { return 0; }
+void event_notify_all(struct event* e) { e->state_ = 1; }
 static void cb_sink(const struct video_sink_s* s) {}
 int
 main(void)
